@@ -17,7 +17,7 @@ def walk_cases(ctx, n):
     cases = []
     for i in range(n):
         cases.append({"kind": "walk", "cfg": rng.choice(configs), "script": rng.choice(plain), "seed": rng.randrange(1 << 30),
-                      "cancelStep": -1, "variant": rng.randrange(1000)})
+                      "cancelStep": -1, "variant": rng.randrange(1000), "weights": rng.choice(P.WEIGHTS)})
     return cases
 
 
@@ -65,8 +65,8 @@ def run(ctx):
 def jitter_cases(ctx, n):
     configs, stop, plain = P.gen_walk_space(ctx)
     rng = random.Random(ctx.seed + 7)
-    return [{"kind": "jitter", "cfg": rng.choice(configs), "script": ["scanall", "err"], "seed": rng.randrange(1 << 30),
-             "cancelStep": -1, "variant": rng.randrange(1000)} for _ in range(n)]
+    return [{"kind": "jitter", "cfg": rng.choice(ctx.jitter_configs if i % 2 else configs), "script": ["scanall", "err"], "seed": rng.randrange(1 << 30),
+             "cancelStep": -1, "variant": rng.randrange(1000), "slow": P.slow_choice(rng)} for i in range(n)]
 
 
 def replay(ctx, rp):
